@@ -36,10 +36,14 @@ class Spec(SeqSpec):
             self._roots = [('empty', {}, ROOT_PREFIXES['empty'])]
             self._roots2 = [('mixed-holes', {}, ROOT_PREFIXES['mixed-holes'])]
         else:
+            # thorough: depth 4 with one variant operation from the empty container; depth 3 with two variant operations from
+            # every root (non-initial starts, other hash type / flat loose folder / one big pack)
             self.depth = 4
-            self.max_variants = 2
-            self._roots = [(n, {}, p) for n, p in ROOT_PREFIXES.items()]
-            self._roots += [('empty-sha1-p0-big', {'hash_type': 'sha1', 'loose_prefix_len': 0, 'pack_size_target': 4 * 1024 ** 3}, [])]
+            self.max_variants = 1
+            shallow = {'depth': 3, 'max_variants': 2}
+            self._roots = [('empty', {}, [])]
+            self._roots += [(n + '-d3v2', {}, p, shallow) for n, p in ROOT_PREFIXES.items()]
+            self._roots += [('empty-sha1-p0-big-d3v2', {'hash_type': 'sha1', 'loose_prefix_len': 0, 'pack_size_target': 4 * 1024 ** 3}, [], shallow)]
 
     def roots(self):
         return self._roots
@@ -77,6 +81,8 @@ def run(tier, report):
         from ..report import Report
         spec3 = Spec(tier)
         spec3.depth = 3
+        spec3.max_variants = 1
+        spec3._roots = [('empty-lowered-thresholds', {}, []), ('mixed-holes-lowered-thresholds', {}, ROOT_PREFIXES['mixed-holes'])]
         spec3.thresholds = (1, 3)
         sub = Report('C02', tier, LEVEL)
         explore(spec3, sub)
@@ -101,9 +107,24 @@ def run(tier, report):
         report.coverage['exhaustive'] = report.coverage['exhaustive'] and sub.coverage['exhaustive']
 
 
+def all_roots():
+    """Every root name used by either tier of C02/C03/C12 (for replay)."""
+    out = []
+    big = {'hash_type': 'sha1', 'loose_prefix_len': 0, 'pack_size_target': 4 * 1024 ** 3}
+    for n, p in ROOT_PREFIXES.items():
+        for suffix in ('', '-d3v2', '-lowered-thresholds'):
+            out.append((n + suffix, {}, p))
+    for suffix in ('', '-d3v2'):
+        out.append(('empty-sha1-p0-big' + suffix, big, []))
+    return out
+
+
 def replay(case):
     from ..seqx import replay_history
     spec = Spec('thorough')
+    spec._roots = all_roots()
+    if 'lowered-thresholds' in case['root'] or (case['root'] == 'mixed-holes' and case.get('spec') == 'Spec'):
+        spec.thresholds = (1, 3)
     spec.listdir_order = case.get('listdir_order', 'native')
     return replay_history(spec, case['root'], [_tuplify(o) for o in case['history']])
 
